@@ -41,6 +41,10 @@ META = {
                 text="contracts: part proved, part bounded. Proved: after fit the per-input transformer list has exactly one element per input, all created by this call, element i fitted on input i (all list lengths, any earlier state); the EOF fit does not mutate its input matrix; the EOF rotator fit does not rename, re-attribute or modify in place any array of the base model and leaves its results and labels as they were. Bounded: random sequences over {fit(D_i), transform(D_j), inverse_transform, components, scores, compute, serialize, rotator.fit, bootstrapper.fit} on one object vs a fresh model, for EOF/ComplexEOF/SparsePCA/POP/MCA/CPCCA; user inputs compared with deep copies.",
                 note="assumed: transformer classes are represented by a recording stub in the loop-rule proof; termination not proved; observational purity of queries and cross-set/bootstrapper effects only bounded; bounded: 59 (quick) / ~300 (thorough) sequences",
                 ref="5/C14"),
+    "C05": dict(level="other", technique="contract-based deductive verification: the real Preprocessor chain traced on structural proxies (dims, coordinate identities, provenance, NaN-mask decisions explored exhaustively) for fit / transform(new data) / both score inverse chains; row locality read off the traced terms; bounded relational checks on real models as labelled stand-in",
+                text="contracts: part proved, part bounded. Proved for every extent, coordinate content and NaN mask of each structure class (1-2 sample dims, 1-2 feature dims, any dims order, sample MultiIndex, NaN checks on/off, lazy): unseen scores carry the new data's own sample coordinates, are never re-indexed to the training coordinates, and the matrix handed to the model uses statistics of the fitted data only and no operation mixing new samples; the model algorithms are right-multiplications of that matrix. Bounded: concatenation = concatenated transforms for split points, subsets of training samples, repeated / overlapping / disjoint / MultiIndex labels on 9 model classes.",
+                note="assumed: xarray structural laws as modelled in vf/sym/ldom.py; DataArray inputs (Dataset/list: bounded); model-level plumbing bounded; bounded: 46 (quick) / 82 (thorough) real models",
+                ref="5/C05"),
 }
 NA_REASON = "no check registered yet in this snapshot of /verif (build in progress; see DESIGN.md section 5 for the plan)"
 
